@@ -28,7 +28,7 @@ ASSUMPTIONS = [
     "commands no ordering rule mentions are not ranked; ties inside one rank are not judged",
     "metamorphic relation is evaluated only when the reduced patch's commands are a sub-multiset of the full patch's commands (otherwise the deleted row was not unrelated)",
 ]
-FLOORS = {"quick": {"patches_ranked": 1500, "ranked_pairs": 3000, "sort_calls": 3000, "configs_ordered": 1500, "metamorphic_pairs": 150, "several_global_rule_cases": 300, "echoed_family_cases": 300, "unordered_blocks_compared": 500, "commented_patches": 300, "commented_commands": 600, "scoped_rule_cases": 300, "ordering_lines_with_tab_before_params": 300, "mirrored_pairs_checked": 150, "cases_with_a_global_block_rule_that_has_nested_rules": 150, "ordering_rules_with_an_inline_letter_case_marker": 1000},
+FLOORS = {"quick": {"patches_ranked": 1500, "ranked_pairs": 3000, "sort_calls": 3000, "configs_ordered": 1500, "metamorphic_pairs": 150, "several_global_rule_cases": 300, "echoed_family_cases": 300, "unordered_blocks_compared": 500, "commented_patches": 300, "commented_commands": 600, "scoped_rule_cases": 300, "ordering_lines_with_tab_before_params": 300, "mirrored_pairs_checked": 150, "cases_with_a_global_block_rule_that_has_nested_rules": 150, "ordering_rules_with_an_inline_letter_case_marker": 1000, "removals_spelled_positively_under_a_positive_pin": 300},
           "thorough": {"patches_ranked": 60000, "ranked_pairs": 100000, "sort_calls": 100000, "configs_ordered": 60000, "metamorphic_pairs": 300, "several_global_rule_cases": 10000, "echoed_family_cases": 10000, "unordered_blocks_compared": 15000, "commented_patches": 10000, "commented_commands": 20000, "scoped_rule_cases": 10000}}
 VENDORS = c01.BLOCK_VENDORS
 KNOWN_ZERO = "C08/first-ordering-rule-has-rank-zero"
@@ -110,7 +110,7 @@ def check_level(items, olevel, prefix, rl, rg, acc, w, path=()):
     """items: [(row, child PatchTree|None)] in emitted order"""
     info = []
     for row, child in items:
-        rem = row.startswith(prefix + " ")
+        rem = row.startswith(prefix + " ") or row in w.get("_pos_removals", {}).get(tuple(path), ())
         rk, ch_level = RO.rank(row, olevel, prefix, rem)
         info.append((row, rem, rk, ch_level, child))
     if not olevel and path and "_neutral" in w:
@@ -197,7 +197,7 @@ def check_config_level(tree_before, tree_after, olevel, prefix, acc, w, path=())
     return True
 
 
-def make_case(seed, many_globals=False, echo=False, scoped=False, gblock=False):
+def make_case(seed, many_globals=False, echo=False, scoped=False, gblock=False, pospin=False):
     rng = random.Random(seed)
     vname = VENDORS[rng.randrange(len(VENDORS))]
     v, prefix, exitw, hw, fmt = c01.vendor_env(vname)
@@ -219,17 +219,23 @@ def make_case(seed, many_globals=False, echo=False, scoped=False, gblock=False):
                     if all(c.pat != l_.pat for c in b.children):
                         b.children.append(RB.Rule(l_.pat))
     order = gen_order(rng, rules, prefix, 0, many_globals, echo, scoped, random.Random(seed ^ 0x6B10) if gblock else None)
+    if pospin:
+        # a line of configuration that is itself spelled negated (`undo portswitch`): its removal is the positive command, which an ordering
+        # rule written in the positive form pins to its place with %order_reverse (as the shipped `portswitch %order_reverse` does)
+        prng = random.Random(seed ^ 0x9051)
+        rules.insert(0, RB.Rule(prefix + " np *"))
+        order.insert(prng.randrange(len(order) + 1), RO.ORule("np *", order_reverse=True))
     old = G.gen_tree(rng, rules, fill=0.75)
     new = G.mutate_tree(rng, old, rules, rate=0.6) if rng.random() < 0.7 else G.gen_tree(rng, rules, fill=0.75)
     return vname, rules, order, old, new
 
 
-def check_case(seed, acc, many_globals=False, echo=False, scoped=False, tabs=False, gblock=False, icase=False):
+def check_case(seed, acc, many_globals=False, echo=False, scoped=False, tabs=False, gblock=False, icase=False, pospin=False):
     from annet.api import _diff_and_patch
     from annet.annlib.patching import Orderer
     from annet.annlib.rbparser.ordering import compile_ordering_text
     install_sort_hook()
-    vname, rules, order, old, new = make_case(seed, many_globals, echo, scoped, gblock)
+    vname, rules, order, old, new = make_case(seed, many_globals, echo, scoped, gblock, pospin)
     if gblock and any(o.glob and o.children for o in order):
         acc.count("cases_with_a_global_block_rule_that_has_nested_rules")
     if scoped:
@@ -277,7 +283,7 @@ def check_case(seed, acc, many_globals=False, echo=False, scoped=False, tabs=Fal
             lines.append(ind + " ".join(ws) + sep + params)
         otext = "\n".join(lines)
         acc.count("ordering_rules_with_an_inline_letter_case_marker", n_)
-    w = {"seed": seed, "many_globals": many_globals, "echo": echo, "scoped": scoped, "tabs": tabs, "gblock": gblock, "icase": icase, "vendor": vname, "rulebook": rtext, "ordering": otext, "old": plain(old), "new": plain(new)}
+    w = {"seed": seed, "many_globals": many_globals, "echo": echo, "scoped": scoped, "tabs": tabs, "gblock": gblock, "icase": icase, "pospin": pospin, "vendor": vname, "rulebook": rtext, "ordering": otext, "old": plain(old), "new": plain(new)}
     try:
         rb = c01.compile_rb(rtext, vname)
         rb["ordering"] = compile_ordering_text(otext, vname)
@@ -310,7 +316,11 @@ def check_case(seed, acc, many_globals=False, echo=False, scoped=False, tabs=Fal
     except Exception as e:
         acc.violation("C08/exception/%s" % type(e).__name__, "patch computation with an empty ordering rulebook raised", dict(w, error=repr(e)[:300]))
         return None
+    if pospin:
+        w["_pos_removals"] = {(): {r[len(prefix) + 1:] for r in old if r.startswith(prefix + " np ") and r not in new}}
+        acc.count("removals_spelled_positively_under_a_positive_pin", len(w["_pos_removals"][()]))
     check_level([(str(i.row), i.child) for i in patch.itms], RO.for_scope(order, "patch"), prefix, rl, rg, acc, w)
+    w.pop("_pos_removals", None)
     w.pop("_neutral", None)
     acc.case([vname, rtext, otext, w["old"], w["new"]], nontrivial=bool(w.pop("_nontrivial", False)))
     # order_config on new (what `annet gen` prints); negated rows are legitimate config lines too (`undo portswitch`)
@@ -574,7 +584,7 @@ def run_shard(spec, acc):
         elif w.get("meta"):
             run_meta({"tier": "thorough", "shard": 0, "nshards": 1, "only": w.get("sample")}, acc)
         else:
-            check_case(w["seed"], acc, many_globals=bool(w.get("many_globals")), echo=bool(w.get("echo")), scoped=bool(w.get("scoped")), tabs=bool(w.get("tabs")), gblock=bool(w.get("gblock")), icase=bool(w.get("icase")))
+            check_case(w["seed"], acc, many_globals=bool(w.get("many_globals")), echo=bool(w.get("echo")), scoped=bool(w.get("scoped")), tabs=bool(w.get("tabs")), gblock=bool(w.get("gblock")), icase=bool(w.get("icase")), pospin=bool(w.get("pospin")))
         return
     if spec["mode"] == "meta":
         return run_meta(spec, acc)
@@ -599,3 +609,5 @@ def run_shard(spec, acc):
             check_case(rng.randrange(1 << 48), acc, gblock=True)
         if j % 5 == 2:
             check_case(rng.randrange(1 << 48), acc, icase=True, many_globals=(j % 10 == 2))
+        if j % 5 == 3:
+            check_case(rng.randrange(1 << 48), acc, pospin=True)
